@@ -250,6 +250,11 @@ def scenario(s, mode, ops):
                     p.start()
             proxies.append(p)
             return ("ok",)
+        if k == "call":
+            if op[1] >= len(proxies):
+                return ("skip",)
+            r = proxies[op[1]].ping(rpc_timeout=0.5)
+            return ("val", r) if isinstance(r, int) else ("weird", repr(r))
         if ctx is None:
             return ("skip",)
         if k == "remove":
@@ -304,6 +309,303 @@ def scenario(s, mode, ops):
         o["nprox"] = len(proxies)
         obs.append(o)
     return obs
+
+
+# ------------------------------------------------------------------------------------------------
+# concurrent scenario: a second thread removes / makes an object while the owner thread stops the context
+# ------------------------------------------------------------------------------------------------
+def scenario_conc(s, pop, bop, nhandlers, line_yields):
+    """pop: [(name idx, kind, rel_ok, extra)] objects made before the race; bop: ("remove", n) or
+    ("make", n, kind, ctor_ok, rel_ok, extra) performed by a second managed thread while the creating thread
+    calls ctx.stop().  Returns observations + the sequence of table/thread effects (labels) in global order."""
+    import threading as real_threading
+    import warnings
+    import qmi  # noqa
+    import qmi.core.context as C
+    import qmi.core.rpc as R
+    import qmi.core.task as T
+    import qmi.core.instrument as I
+    from qmi.core.config_defs import CfgQmi, CfgContext
+    logging.disable(logging.CRITICAL)
+    warnings.simplefilter("ignore")
+    real_threading.excepthook = lambda args: None
+    st = {"next": 0, "rel": [], "born": [], "relfail": set(), "names": {}}
+    labels = []
+    obs = {"a": None, "b": None, "labels": labels}
+    s.obs = obs
+    s.recording = False
+
+    def fresh():
+        st["next"] += 1
+        return st["next"] - 1
+
+    def who():
+        return "A" if s.current.tid == 0 else "B" if s.current.tid == st.get("btid") else "T%d" % s.current.tid
+
+    def born(o, name, rel_ok):
+        st["born"].append(o.oid)
+        st["names"][o.oid] = name
+        labels.append((who(), "born", name_idx(name)))
+        if not rel_ok:
+            st["relfail"].add(o.oid)
+
+    def released(o):
+        st["rel"].append(o.oid)
+        labels.append((who(), "release", name_idx(st["names"].get(o.oid, "?"))))
+
+    class Obj(R.QMI_RpcObject):
+        def __init__(self, context, name, ctor_ok, rel_ok):
+            self.oid = fresh()
+            if not ctor_ok:
+                raise RuntimeError("ctor")
+            super().__init__(context, name)
+            born(self, name, rel_ok)
+
+        @R.rpc_method
+        def ping(self):
+            return self.oid
+
+        def release_rpc_object(self):
+            released(self)
+            if self.oid in st["relfail"]:
+                raise RuntimeError("release")
+
+    class Inst(I.QMI_Instrument):
+        def __init__(self, context, name, ctor_ok, rel_ok):
+            self.oid = fresh()
+            if not ctor_ok:
+                raise RuntimeError("ctor")
+            super().__init__(context, name)
+            born(self, name, rel_ok)
+
+        def release_rpc_object(self):
+            released(self)
+            super().release_rpc_object()
+            if self.oid in st["relfail"]:
+                raise RuntimeError("release")
+
+    class Tsk(T.QMI_Task):
+        def __init__(self, task_runner, name, ctor_ok):
+            if not ctor_ok:
+                raise RuntimeError("ctor")
+            super().__init__(task_runner, name)
+
+        def run(self):
+            while not self.stop_requested():
+                self.sleep(1.0)
+
+    class Runner(T.QMI_TaskRunner):
+        def __init__(self, context, name, task_class, task_args, task_kwargs):
+            self.oid = fresh()
+            rel_ok = task_kwargs.pop("rel_ok")
+            super().__init__(context, name, task_class, task_args, task_kwargs)
+            born(self, name, rel_ok)
+
+        def release_rpc_object(self):
+            released(self)
+            super().release_rpc_object()
+            if self.oid in st["relfail"]:
+                raise RuntimeError("release")
+
+    orig_init = C._ContextRpcObject.__init__
+    orig_rel = C._ContextRpcObject.release_rpc_object
+
+    def ctx_init(self, *a, **k):
+        self.oid = fresh()
+        orig_init(self, *a, **k)
+        born(self, "$context", True)
+
+    def ctx_rel(self):
+        released(self)
+        return orig_rel(self)
+    C._ContextRpcObject.__init__ = ctx_init
+    C._ContextRpcObject.release_rpc_object = ctx_rel
+
+    ctx = C.QMI_Context("d", CfgQmi(contexts={"d": CfgContext(tcp_server_port=TPORT)}))
+    ctx.start()
+
+    def mk(op):
+        _, n, kind, ctor_ok, rel_ok, extra = op[:6] if op[0] == "make" else ("make",) + tuple(op)
+        name = NAMES[n]
+        if kind == "obj":
+            return ctx.make_rpc_object(name, Obj, ctor_ok, rel_ok)
+        if kind == "inst":
+            p = ctx.make_instrument(name, Inst, ctor_ok, rel_ok)
+            if extra:
+                p.open()
+            return p
+        p = ctx.make_task(name, Tsk, ctor_ok, task_runner=Runner, rel_ok=rel_ok)
+        if extra:
+            p.start()
+        return p
+    proxies = {}
+    for (n, kind, rel_ok, extra) in pop:
+        proxies[n] = mk(("make", n, kind, True, rel_ok, extra))
+    for h in range(nhandlers):
+        def handler(h=h):
+            labels.append((who(), "handler", h))
+            if h % 2 == 0:
+                raise RuntimeError("stop handler")
+        ctx.register_stop_handler(handler)
+
+    # ---- effect log: the object map, the handler map and manager.stop, observed from outside -------------
+    class LogDict(dict):
+        def __setitem__(self, k, v):
+            dict.__setitem__(self, k, v)
+            labels.append((who(), "reserve" if v is None else "publish", name_idx(k)))
+
+        def __delitem__(self, k):
+            try:
+                dict.__delitem__(self, k)
+            except KeyError:
+                labels.append((who(), "delname-keyerror", name_idx(k)))
+                raise
+            labels.append((who(), "delname", name_idx(k)))
+
+        def clear(self):
+            labels.append((who(), "clear", 0))
+            dict.clear(self)
+    ctx._rpc_object_map = LogDict(ctx._rpc_object_map)
+    router = ctx._message_router
+    orig_unreg, orig_reg = router.unregister_message_handler, router.register_message_handler
+
+    def unreg(h):
+        try:
+            orig_unreg(h)
+        except BaseException:
+            labels.append((who(), "unreg-failed", name_idx(h.address.object_id)))
+            raise
+        if isinstance(h, R.RpcObjectManager):
+            labels.append((who(), "unreg", name_idx(h.address.object_id)))
+
+    def reg(h):
+        orig_reg(h)
+        if isinstance(h, R.RpcObjectManager):
+            labels.append((who(), "reg", name_idx(h.address.object_id)))
+    router.unregister_message_handler, router.register_message_handler = unreg, reg
+    orig_mstop = R.RpcObjectManager.stop
+
+    def mstop(self):
+        orig_mstop(self)
+        labels.append((who(), "stopped", name_idx(self.address.object_id)))
+    R.RpcObjectManager.stop = mstop
+
+    if line_yields:
+        fns = [C.QMI_Context.remove_rpc_object, C.QMI_Context._internal_make_rpc_object, C.QMI_Context.stop]
+        if hasattr(C.QMI_Context, "_stop_rpc_objects"):
+            fns.append(C.QMI_Context._stop_rpc_objects)
+        dsched.enable_line_yields(fns)
+
+    def body():
+        try:
+            if bop[0] == "remove":
+                n = bop[1]
+                if n in proxies:
+                    p = proxies[n]
+                else:
+                    from qmi.core.messaging import QMI_MessageHandlerAddress as Addr
+                    import types
+                    p = types.SimpleNamespace(_rpc_object_address=Addr(ctx.name, NAMES[n]))
+                ctx.remove_rpc_object(p)
+            else:
+                mk(tuple(bop[:5]) + (False,))     # no follow-up RPC call: it would race with stop() by itself
+            obs["b"] = ["ok"]
+        except dsched.Deadlock:
+            raise
+        except BaseException as e:
+            obs["b"] = ["exc", type(e).__name__]
+
+    nbase = len(st["born"])
+    s.recording = True
+    bt = real_threading.Thread(target=body, name="B")
+    bt.start()
+    st["btid"] = s.by_real[bt].tid
+    try:
+        ctx.stop()
+        obs["a"] = ["ok"]
+    except dsched.Deadlock:
+        raise
+    except BaseException as e:
+        obs["a"] = ["exc", type(e).__name__]
+    bt.join()
+    s.recording = False
+    th = {}
+    for t in s.threads:
+        if t.state != dsched.DONE and t.tid != 0:
+            k = t.name.split(":")[-1]
+            th[k] = th.get(k, 0) + 1
+    obs.update({"threads": th, "rel": list(st["rel"]), "born": list(st["born"]),
+                "born_names": {str(k): v for k, v in st["names"].items()},
+                "handlers": list(router._address_to_messagehandler_map.keys()),
+                "objmap": [(k, v is not None) for k, v in ctx._rpc_object_map.items()],
+                "active": bool(ctx._active), "joined": True, "nbase": nbase})
+    obs["labels"] = [list(x) for x in labels]
+    return obs
+
+
+ALLOWED_B = {"remove": {"QMI_UnknownNameException"},
+             "make": {"QMI_InvalidOperationException", "QMI_DuplicateNameException", "QMI_UsageException"}}
+
+
+def oracle_conc(pop, bop, res):
+    """C12 for a remove/make racing with stop, on the observations.  Returns None or (key, text)."""
+    kind = bop[0]
+    if res["status"] == "deadlock":
+        return "conc:%s:deadlock" % kind, "stop() / the racing %s never return (scheduler reports a deadlock): %s" % (kind, res.get("info"))
+    if res["status"] != "ok":
+        return "conc:%s:%s" % (kind, res["status"]), "run did not finish (%s): %s" % (res["status"], (res.get("trace") or "")[-400:])
+    o = res["obs"]
+    a, b = o["a"], o["b"]
+    labels = [tuple(x) for x in o["labels"]]
+    names = o["born_names"]
+    cnt = {}
+    for x in o["rel"]:
+        cnt[x] = cnt.get(x, 0) + 1
+    unrel = [names[str(x)] for x in o["born"] if cnt.get(x, 0) == 0]
+    twice = [names[str(x)] for x in o["born"] if cnt.get(x, 0) > 1]
+    if a != ["ok"]:
+        # the one interleaving of the unchanged tree in which stop() itself fails: the racing make has published its
+        # manager in the object map (under the lock) but not yet registered it as message handler
+        fl = [l for l in labels if l[0] == "A" and l[1] == "unreg-failed"]
+        if kind == "make" and a == ["exc", "QMI_UnknownNameException"] and fl and ("B", "publish", fl[0][2]) in labels and (
+                ("B", "reg", fl[0][2]) not in labels or labels.index(("B", "reg", fl[0][2])) > labels.index(fl[0])):
+            return ("conc:make:stop-unregisters-before-make-registers",
+                    "stop() raised QMI_UnknownNameException from unregister_message_handler for %r, published by a racing make_* but not yet "
+                    "registered; stop() aborted: unreleased %r, threads left %r" % (NAMES[fl[0][2]], unrel, o["threads"]))
+        return "conc:%s:stop-raised:%s" % (kind, a[1]), "stop() raised %s while a %s ran in another thread" % (a[1], kind)
+    if b is None:
+        return "conc:%s:b-unfinished" % kind, "the racing operation did not finish"
+    if b[0] == "exc":
+        ok = set(ALLOWED_B[kind])
+        if kind == "make" and not bop[3]:
+            ok |= {"RuntimeError", "QMI_TaskInitException"}          # the injected constructor failure
+        if b[1] not in ok:
+            return "conc:%s:b-exception:%s" % (kind, b[1]), "the %s racing with stop() failed with %s (not a usage / invalid-operation / unknown-name error); unreleased %r, threads left %r" % (kind, b[1], unrel, o["threads"])
+    if unrel:
+        return "conc:%s:unreleased" % kind, "after stop() and the racing %s finished, objects %r were never released" % (kind, unrel)
+    if twice:
+        return "conc:%s:released-twice" % kind, "objects %r were released more than once" % (twice,)
+    if o["threads"]:
+        return "conc:%s:threads-left" % kind, "QMI threads remain: %r" % (o["threads"],)
+    if [h for h in o["handlers"] if h != "$pubsub"] or o["objmap"] or o["active"]:
+        return "conc:%s:tables" % kind, "after stop: handlers %r objmap %r active %r" % (o["handlers"], o["objmap"], o["active"])
+    return None
+
+
+def gen_conc(rng):
+    npop = rng.choice([0, 1, 1, 2, 2, 3])
+    names = rng.sample([1, 2, 3, 4], npop)
+    pop = [(n, rng.choice(KINDS), rng.random() < 0.7, rng.random() < 0.7) for n in names]
+    r = rng.random()
+    if r < 0.45 and names:
+        bop = ("remove", rng.choice(names))
+    elif r < 0.5:
+        bop = ("remove", rng.choice([1, 2, 3, 4]))
+    else:
+        free = [n for n in [1, 2, 3, 4] if n not in names]
+        n = rng.choice(free) if (free and rng.random() < 0.85) or not names else rng.choice(names)
+        bop = ("make", n, rng.choice(KINDS), rng.random() < 0.8, rng.random() < 0.7, rng.random() < 0.7)
+    return pop, bop, rng.choice([0, 0, 1, 2])
 
 
 def _preload():
@@ -709,12 +1011,77 @@ def run(ck):
                   "implementation and Coq model disagree on a history (first differing step (demanded, current-tree) = %s)%s" % (
                       d[-60:], ": " + fl[1] if fl else " (the property oracle passes on it)"),
                   dict(rep, impl_outs=[o["out"] for o in obs], broken="correspondence C12.Corr.check_case"), found_input=bool(fl))
+    run_conc(ck)
     return ck.finish("seeded random operation+fault histories (length <= 12, both modes) + %d scripted, each under 1-3 random schedules; "
                      "non-trivial = at least one successful make or stop; distinct by (history, schedule)" % len(SCRIPTED))
 
 
+def run_conc(ck):
+    """Concurrent part: remove_rpc_object / make_* in a second thread while the owner thread stops the context."""
+    rng = ck.rng
+    nconf = 110 if ck.tier == "quick" else 2500
+    confs = [([(1, "obj", True, False)], ("remove", 1), 0), ([(1, "task", False, True), (2, "inst", True, True)], ("remove", 1), 1),
+             ([(1, "obj", True, False)], ("make", 2, "obj", True, True, False), 0),
+             ([(1, "obj", True, False)], ("make", 2, "task", True, False, True), 1)]
+    confs += [gen_conc(rng) for _ in range(nconf)]
+    jobs, meta = [], []
+    for ci, (pop, bop, nh) in enumerate(confs):
+        for j in range(6 if ci < 4 else 3):
+            strat = "pct" if j % 3 == 2 else "random"
+            seed = rng.randrange(1 << 30)
+            ly = j != 1 or ci < 4          # one of three without line-level yields (synchronisation-level schedule)
+            jobs.append((scenario_conc, (pop, bop, nh, ly), dict(strategy=strat, seed=seed, switch_prob=rng.choice([0.2, 0.35, 0.6]))))
+            meta.append((pop, bop, nh, ly, strat, seed))
+    results = dsched.run_forked(jobs, nproc=16, wall_timeout=60.0)
+    # systematic: all schedules with <= 2 preemptions at synchronisation granularity of two short scenarios
+    dfs = []
+    for (pop, bop, nh) in confs[:1] + confs[2:3]:
+        nmax = 250 if ck.tier == "quick" else 4000
+        for res in dsched.explore_dfs(scenario_conc, (pop, bop, nh, False), preemption_bound=2, max_runs=nmax, nproc=16, wall_timeout=60.0):
+            if res["status"] == "_summary":
+                ck.coverage.setdefault("conc_dfs", {})["%s/%s" % (bop[0], len(pop))] = {
+                    "runs": res["runs"], "exhausted_within_preemption_bound": res["exhausted"], "bound": 2}
+                continue
+            dfs.append(((pop, bop, nh, False, "replay", None), res))
+    outcomes = {}
+    for (pop, bop, nh, ly, strat, seed), res in list(zip(meta, results)) + dfs:
+        o = res.get("obs") or {}
+        ck.note_case(("conc", pop, bop, nh, ly, res.get("choices")), True)
+        ck.count("conc:%s:%s" % (bop[0], res["status"]))
+        if res["status"] == "ok":
+            ck.count("conc:%s:other-thread-outcome:%s" % (bop[0], "/".join(o["b"] or ["?"])))
+        bad = oracle_conc(pop, bop, res)
+        if bad:
+            ck.count("conc-oracle-flagged")
+            ck.report(bad[0], "C12 fails on the implementation (concurrent): " + bad[1],
+                      {"concurrent": True, "pop": [list(x) for x in pop], "bop": list(bop), "nhandlers": nh, "line_yields": ly,
+                       "strategy": strat, "seed": seed, "schedule": res.get("choices"), "status": res["status"],
+                       "labels": o.get("labels"), "stop_outcome": o.get("a"), "other_outcome": o.get("b")})
+    ck.coverage["concurrent_runs"] = len(meta) + len(dfs)
+
+
+def replay_conc(c):
+    _preload()
+    pop = [tuple(x) for x in c["pop"]]
+    bop = tuple(c["bop"])
+    kw = dict(strategy="replay", schedule=list(c["schedule"])) if c.get("schedule") is not None else dict(strategy=c["strategy"], seed=c["seed"])
+    res = dsched.run_forked([(scenario_conc, (pop, bop, c["nhandlers"], c["line_yields"]), kw)], nproc=1, wall_timeout=60.0)[0]
+    o = res.get("obs") or {}
+    print("status:", res["status"], res.get("info") or "")
+    print("population:", pop, " other thread:", bop)
+    print("stop() ->", o.get("a"), "  other thread ->", o.get("b"))
+    print("effects in order:", [tuple(x) for x in o.get("labels") or []])
+    print("released:", o.get("rel"), "constructed:", o.get("born"), "threads left:", o.get("threads"), "handlers:", o.get("handlers"),
+          "objmap:", o.get("objmap"))
+    bad = oracle_conc(pop, bop, res)
+    print("oracle:", bad or "property holds on this schedule")
+    return 1 if bad else 0
+
+
 def replay(rep):
     c = rep["case"]
+    if c.get("concurrent"):
+        return replay_conc(c)
     _preload()
     ops = [tuple(o) for o in c["ops"]]
     kw = dict(strategy="replay", schedule=list(c["schedule"])) if c.get("schedule") else dict(strategy=c.get("strategy", "random"), seed=c.get("seed", 0))
